@@ -66,6 +66,10 @@ def canon(v):
         return "d" + v.isoformat()
     if isinstance(v, (set, frozenset)):
         return "S{" + ",".join(sorted(canon(x) for x in v)) + "}"
+    if isinstance(v, dict):
+        return t.__name__ + "{" + ",".join(canon(k) + ":" + canon(x) for k, x in v.items()) + "}"
+    if isinstance(v, list):
+        return t.__name__ + "[" + ",".join(canon(x) for x in v) + "]"
     return "?%s:%s" % (t.__name__, _safe_repr(v))
 
 
@@ -110,6 +114,10 @@ def enc(v):
         return {"$tuple": [enc(x) for x in v]}
     if t is dict:
         return {"$dict": [[enc(k), enc(x)] for k, x in v.items()]}
+    if t.__name__ == "defaultdict" and isinstance(v, dict):
+        return {"$defaultdict": [[enc(k), enc(x)] for k, x in v.items()]}
+    if t.__name__ == "OrderedDict" and isinstance(v, dict):
+        return {"$ordereddict": [[enc(k), enc(x)] for k, x in v.items()]}
     if t is UUID:
         return {"$uuid": v.hex}
     if t is datetime:
@@ -119,6 +127,10 @@ def enc(v):
     if v is Ellipsis:
         return {"$ellipsis": 1}
     return {"$repr": _safe_repr(v)}
+
+
+def _none():
+    return None
 
 
 def dec(j):
@@ -149,6 +161,15 @@ def dec(j):
             return tuple(dec(y) for y in x)
         if k == "$dict":
             return {dec(a): dec(b) for a, b in x}
+        if k == "$defaultdict":
+            from collections import defaultdict
+            d = defaultdict(int)          # a factory whose repr carries no address
+            for a, b in x:
+                d[dec(a)] = dec(b)
+            return d
+        if k == "$ordereddict":
+            from collections import OrderedDict
+            return OrderedDict((dec(a), dec(b)) for a, b in x)
         if k == "$uuid":
             return UUID(hex=x)
         if k == "$dt":
